@@ -30,7 +30,7 @@ type c07Factory struct {
 	churn  int
 	// lastNotWritten: the last AppendLeader failed with the closed outcome
 	// DefinitelyNotWritten (the log must then be unchanged).
-	lastNotWritten bool
+	lastNotWritten map[string]bool
 }
 
 // SetCtx makes every following call on ch use ctx (nil = live background context).
@@ -213,12 +213,12 @@ func (f *c07Factory) records(recs []c07Rec, firstIndex uint64) []chn.Record {
 
 func (f *c07Factory) Append(ch *c07Chan, mode c07Mode, baseSeq uint64, recs []c07Rec) (uint64, uint64, error) {
 	res, err := f.st(ch).AppendLeader(f.cx(ch), chstore.AppendLeaderRequest{Records: f.records(recs, 0), ServerAllocatedMessageIDs: mode == c07ServerAlloc})
-	f.lastNotWritten = false
+	f.setNotWritten(ch, false)
 	if err != nil {
 		if res.Outcome.Durable() {
 			return 0, 0, fmt.Errorf("error %v with durable outcome", err)
 		}
-		f.lastNotWritten = res.Outcome == chstore.AppendOutcomeDefinitelyNotWritten
+		f.setNotWritten(ch, res.Outcome == chstore.AppendOutcomeDefinitelyNotWritten)
 		return 0, 0, err
 	}
 	if !res.Outcome.Durable() {
@@ -228,6 +228,32 @@ func (f *c07Factory) Append(ch *c07Chan, mode c07Mode, baseSeq uint64, recs []c0
 		return 0, 0, nil
 	}
 	return res.BaseOffset, res.LastOffset, nil
+}
+
+func (f *c07Factory) setNotWritten(ch *c07Chan, v bool) {
+	f.mu.Lock()
+	defer f.mu.Unlock()
+	if f.lastNotWritten == nil {
+		f.lastNotWritten = map[string]bool{}
+	}
+	f.lastNotWritten[ch.Key] = v
+}
+
+// NotWritten reports whether the last AppendLeader on ch failed with the
+// closed outcome DefinitelyNotWritten.
+func (f *c07Factory) NotWritten(ch *c07Chan) bool {
+	f.mu.Lock()
+	defer f.mu.Unlock()
+	return f.lastNotWritten[ch.Key]
+}
+
+// Fence waits, without wall clock, until any commit admitted by an earlier
+// (cancelled, outcome-unknown) append has reached its terminal state: the
+// commit owner holds the channel's canonical append lock until then, and an
+// empty leader append takes that lock.
+func (f *c07Factory) Fence(ch *c07Chan) error {
+	_, err := f.st(ch).AppendLeader(c07Ctx, chstore.AppendLeaderRequest{})
+	return err
 }
 
 func (f *c07Factory) Apply(ch *c07Chan, baseSeq uint64, recs []c07Rec, ck *c07Ckpt, strict bool) (uint64, error) {
